@@ -155,6 +155,8 @@ def err_name(e):
         return "EStruct"
     if isinstance(e, AssertionError):
         return "EAssert"
+    if isinstance(e, OSError):
+        return "EOSError"      # not an exception of the model: the drivers judge it and stop the history
     return None
 
 
